@@ -24,6 +24,13 @@ RULES = {
 }
 
 
+def dir_widths(d):
+    """direction bin widths as the spectrum object defines them: the wrapped distance to the next stored direction
+    (the last bin closes the circle)"""
+    d = np.asarray(d, dtype=float)
+    return (np.diff(d, append=d[0]) + 180.0) % 360.0 - 180.0
+
+
 def ask_moment(drv, p, fmin, fmax, f, e):
     fm = "inf" if math.isinf(fmax) else bits(fmax)
     return frac(drv.ask(f"spec moment {p} {bits(fmin)} {fm} {bits_list(f)} {bits_list(e)}"))
@@ -38,7 +45,13 @@ def check_c01(run, drv, ncases, start=0):
             warnings.simplefilter("ignore")
             if two_d:
                 spec, meta = sp.make_2d(rng)
-                e_all = spec.e.values
+                # e(f) by the definition (missing bins count as zero), not the code's own directional integral
+                e_all = np.sum(np.nan_to_num(meta["E"]) * dir_widths(meta["d"]), axis=-1)
+                e_code = np.asarray(spec.e.values, dtype=float)
+                if e_code.shape != e_all.shape or not np.allclose(np.nan_to_num(e_code), e_all, rtol=1e-12, atol=1e-300):
+                    run.violation("e(f) of a 2D spectrum is not the sum over directions of density x bin width with missing bins counted as zero",
+                                  dict(layout=meta["layout"], directions=meta["d"].tolist()[:8], got=np.nan_to_num(e_code).reshape(-1)[:6].tolist(),
+                                       want=e_all.reshape(-1)[:6].tolist()))
             else:
                 spec, meta = sp.make_1d(rng)
                 e_all = meta["e"]
@@ -68,6 +81,14 @@ def check_c01(run, drv, ncases, start=0):
                         if not close(float(got[i]), ex, scale):
                             run.mismatch("moment", dict(layout=meta["layout"], two_d=two_d, f=f.tolist(), e=mem[i].tolist(),
                                                         band=(fmin, fmax), p=p, impl=float(got[i]), model=float(ex)))
+                        # the defining integral, independently: trapezoid over the grid points inside [fmin, fmax)
+                        sel = (f >= fmin) & (f < fmax)
+                        ref = float(np.trapezoid(ee[sel] * f[sel] ** p, f[sel])) if sel.sum() >= 2 else 0.0
+                        if abs(float(got[i]) - ref) > 1e-9 * scale:
+                            run.violation("the n-th moment is not the trapezoidal integral of e(f) f^n over the grid points inside the band "
+                                          "(missing values counted as zero)",
+                                          dict(layout=meta["layout"], two_d=two_d, f=f.tolist(), e=[None if x != x else float(x) for x in mem[i]],
+                                               band=(fmin, fmax), n=p, got=float(got[i]), want=ref))
                 # definitions of the integral parameters on the implementation
                 if len(moms) == 5:
                     m0, m1, m2 = moms[0], moms[1], moms[2]
@@ -218,6 +239,33 @@ def check_c02(run, drv, ncases, start=0):
                     run.violation("numba_directionally_integrate_spectral_data differs from sum x*dtheta", {})
             except Exception as ex2:
                 run.notes.append("numba integrate kernels not exercised: " + repr(ex2)[:100]) if len(run.notes) < 3 else None
+            # signed densities (differences of spectra, source terms): the same sums, nothing clipped
+            if case % 3 == 0:
+                Es = np.nan_to_num(E) - np.nan_to_num(np.roll(E, 1, axis=-1)) * rng.choice([0.5, 1.0, 2.0])
+                sgn, _ = sp.make_2d(rng, layout=meta["layout"], f=f, d=d, E=Es, depth_mode="deep")
+                run.case("signed_density", key=case)
+                es = np.asarray(sgn.e.values, dtype=float)
+                wants = np.sum(Es * step, axis=-1)
+                if not np.allclose(es, wants, rtol=1e-11, atol=1e-13 * float(np.max(np.abs(Es)) * 360 + 1e-300)):
+                    run.violation("e(f) of a signed 2D density is not the sum over directions of density x bin width",
+                                  dict(got=es.reshape(-1)[:6].tolist(), want=wants.reshape(-1)[:6].tolist()))
+                if not np.allclose(np.asarray(sgn.as_frequency_spectrum().m0().values, dtype=float), np.asarray(sgn.m0().values, dtype=float), rtol=1e-11, atol=1e-300):
+                    run.violation("converting a signed 2D spectrum to 1D changes its total variance", {})
+            # the integrals follow the data: read, change the density in place, read again
+            if case % 3 == 1:
+                live, _ = sp.make_2d(rng, layout=meta["layout"], f=f, d=d, E=np.nan_to_num(E).copy(), depth_mode="deep")
+                run.case("inplace_then_reintegrate", key=case)
+                _ = (live.e.values, live.hm0().values, live.a1.values)
+                fac = np.linspace(0.5, 3.0, len(f))
+                live.multiply(fac, ["frequency"], inplace=True)
+                fresh, _ = sp.make_2d(rng, layout=meta["layout"], f=f, d=d, E=np.nan_to_num(E) * fac[:, None], depth_mode="deep")
+                for nm in ("e", "a1", "b1", "a2", "b2"):
+                    a_, b_ = np.asarray(getattr(live, nm).values, dtype=float), np.asarray(getattr(fresh, nm).values, dtype=float)
+                    if not np.allclose(a_, b_, rtol=1e-11, atol=1e-300, equal_nan=True):
+                        run.violation("after an in-place change of the density, " + nm + "(f) is not that of the changed density (stale integral)",
+                                      dict(layout=meta["layout"]))
+                if not np.allclose(np.asarray(live.hm0().values, dtype=float), np.asarray(fresh.hm0().values, dtype=float), rtol=1e-11, equal_nan=True):
+                    run.violation("after an in-place change of the density, Hm0 is not that of the changed density", dict(layout=meta["layout"]))
             # 2D -> 1D conversion
             s1d = spec.as_frequency_spectrum()
             run.case("to1d", key=case)
@@ -339,6 +387,46 @@ def check_c03(run, drv, ncases, thorough, start=0):
                     a1v, b1v = meta["moments"][0], meta["moments"][1]
                     if not np.allclose(pfd, np.degrees(np.arctan2(b1v, a1v)), atol=1e-9, equal_nan=True):
                         run.violation("mean_direction_per_frequency does not follow its definition", {})
+    # 2D spectra, uniform and non-uniform direction grids: direction parameters from the density itself
+    for case in range(start, start + max(1, ncases // 4)):
+        with warnings.catch_warnings():
+            warnings.simplefilter("ignore")
+            spec, meta = sp.make_2d(rng, nan_rate=0.0, uniform=(case % 2 == 0))
+            f, d, E = meta["f"], meta["d"], meta["E"]
+            run.count("twoD_dirgrid_" + meta["dkind"])
+            wdt = dir_widths(d)
+            rad = np.radians(d)
+            Em = sp.members(E, 2)
+            num_e = np.sum(Em * wdt, axis=-1)
+            num_a = np.sum(Em * np.cos(rad) * wdt, axis=-1)
+            num_b = np.sum(Em * np.sin(rad) * wdt, axis=-1)
+            with np.errstate(all="ignore"):
+                pfd = sp.members(np.asarray(spec.mean_direction_per_frequency.values, dtype=float), 1)
+                wantp = np.degrees(np.arctan2(num_b, num_a))
+            run.case("twoD_direction_per_frequency", key=(case,))
+            okp = (num_e > 0) & (np.hypot(num_a, num_b) > 1e-9 * num_e)
+            if np.any(np.abs(((pfd - wantp + 180) % 360 - 180)[okp]) > 1e-7):
+                run.violation("per-frequency mean direction of a 2D spectrum is not atan2 of the width-weighted sin/cos sums of its density",
+                              dict(directions=d.tolist(), got=pfd[okp][:4].tolist(), want=wantp[okp][:4].tolist()))
+            for (fmin, fmax) in sp.bands(rng, f)[:4]:
+                band = (f >= fmin) & (f < fmax)
+                if band.sum() < 2:
+                    continue
+                with np.errstate(all="ignore"):
+                    md = np.asarray(spec.mean_direction(fmin, fmax), dtype=float).reshape(-1)
+                    sd = np.asarray(spec.mean_directional_spread(fmin, fmax), dtype=float).reshape(-1)
+                A = np.trapezoid(num_a[:, band], f[band], axis=-1)
+                B = np.trapezoid(num_b[:, band], f[band], axis=-1)
+                M0 = np.trapezoid(num_e[:, band], f[band], axis=-1)
+                run.case("twoD_mean_direction", key=(case, fmin, fmax))
+                for i in range(len(md)):
+                    if not (M0[i] > 0) or math.hypot(A[i], B[i]) <= 1e-9 * M0[i]:
+                        continue
+                    wd = math.degrees(math.atan2(B[i], A[i]))
+                    ws = math.degrees(math.sqrt(max(0.0, 2 - 2 * math.hypot(A[i], B[i]) / M0[i])))
+                    if abs((md[i] - wd + 180) % 360 - 180) > 1e-7 or abs(sd[i] - ws) > 1e-6:
+                        run.violation("mean direction / spread of a 2D spectrum are not those of the energy-weighted band averages of a1, b1 "
+                                      "(width-weighted direction sums)", dict(directions=d.tolist(), band=(fmin, fmax), got=[float(md[i]), float(sd[i])], want=[wd, ws]))
     # rotation / mirror on the implementation
     for case in ([start] if start % 4 == 0 else []):
         with warnings.catch_warnings():
@@ -490,6 +578,22 @@ def check_c04(run, drv, ncases, start=0):
                             a, b = got[i], per[i][k]
                             if not ((a != a and b != b) or a == b):
                                 run.violation(f"{nm} is not the per-frequency value at the peak index", dict(k=k, got=float(a), want=float(b)))
+            # the peak follows the data: read it, change the density in place so that the maximum moves, read it again
+            if two_d and len(f) >= 3:
+                run.case("peak_after_inplace_change", key=(case,))
+                live, _ = sp.make_2d(rng, layout=layout, f=f, d=360.0 / nd * np.arange(nd), E=E.copy(), depth_mode="deep")
+                before_idx = np.asarray(live.peak_index().values).reshape(-1)
+                fac = np.ones(len(f))
+                tgt = (int(before_idx[0]) + 1 + rng.randrange(len(f) - 1)) % len(f)
+                fac[tgt] = 1e6
+                live.multiply(fac, ["frequency"], inplace=True)
+                fresh, _ = sp.make_2d(rng, layout=layout, f=f, d=360.0 / nd * np.arange(nd), E=E * fac[:, None], depth_mode="deep")
+                for nm in ("peak_index", "peak_frequency", "peak_period", "peak_direction", "peak_directional_spread"):
+                    with np.errstate(all="ignore"):
+                        a_, b_ = np.asarray(getattr(live, nm)().values, dtype=float), np.asarray(getattr(fresh, nm)().values, dtype=float)
+                    if not np.array_equal(a_, b_, equal_nan=True):
+                        run.violation("after an in-place change of the density " + nm + " still refers to the old maximum of e(f)",
+                                      dict(layout=layout, before=before_idx.tolist()[:4], got=a_.reshape(-1).tolist()[:4], want=b_.reshape(-1).tolist()[:4]))
             # peak wavenumber satisfies the dispersion relation at the peak frequency and the member's depth
             if not np.isnan(e).all(axis=-1).any():
                 with np.errstate(all="ignore"):
